@@ -148,10 +148,24 @@ class Runner:
         cube = cubes.build_cube(w, dims)
         aggs = [cubes.build_agg(w, spec, a) for spec, a in zip(w["aggs"], args)]
         at = list(plan["at"])
+        via = plan.get("via", "instance")
+        holder = {}
+        if via != "instance":
+            # the callback is supplied through a subclass (as an attribute or as a method), not set on the instance
+            base = type(cube)
+            if via == "subclass-attribute":
+                sub = type(base.__name__ + "WithCallback", (base,), {"check_interrupt": staticmethod(lambda: holder["inj"]())})
+            else:
+                sub = type(base.__name__ + "WithCallback", (base,), {"check_interrupt": lambda self: holder["inj"]()})
+            cube = sub(dims, interacting_shape=tuple(int(e) for e in w["ishape"]))
+            self.count("callback_via_" + via)
         if mode == "serial":
             inj = INJECTORS[plan.get("injector", "plain")](at_counts=at, exc_cls=exc_cls)
             cube.parallel = False
-            cube.check_interrupt = inj
+            if via == "instance":
+                cube.check_interrupt = inj
+            else:
+                holder["inj"] = inj
             out = exc = None
             try:
                 out = cubes.evaluate(cube, aggs)
@@ -175,7 +189,9 @@ class Runner:
                     self.count("probe_interrupt_middle_subcube")
         else:
             inj = INJECTORS[plan.get("injector", "plain")](at_items=at, exc_cls=exc_cls)
-            res = self.pooled(plan, "", cube, aggs, inj)
+            if via != "instance":
+                holder["inj"] = inj
+            res = self.pooled(plan, "", cube, aggs, inj if via == "instance" else None)
             self.judge_pooled(inj, at, res)
             self.count("pooled_runs")
             self.count("raises_planned_pooled", len(at))
@@ -190,7 +206,10 @@ class Runner:
         if not at:
             return
         # recovery on the same objects, faults over
-        cube.check_interrupt = None
+        if via == "instance":
+            cube.check_interrupt = None
+        else:
+            holder["inj"] = lambda: None
         rec = plan.get("recovery", "serial")
         if rec == "serial":
             cube.parallel = False
@@ -356,6 +375,9 @@ def plans_for(w, rng, tier, est_steps):
     for p in plans:
         p.setdefault("poolsize", rng.choice((1, 2, 3, 4, 8)))
         p["injector"] = rng.choice(("plain", "plain", "budget", "falsy", "anyargs"))
+        p["via"] = rng.choice(("instance", "instance", "instance", "subclass-attribute", "subclass-method"))
+        if p["via"] != "instance":
+            p["injector"] = "plain"
         for prefix in ("", "rec_"):
             seed = rng.getrandbits(48)
             p[prefix + "sched_seed"] = seed
